@@ -93,7 +93,7 @@ def apply_extra(rw, src, lo, hi, cfg, skip):
         for k in range(lo, hi - 2):
             if toks[k].kind == "ident" and toks[k].text == "polynomial" and toks[k + 1].text == "!" and toks[k + 2].text == "[":
                 close = src.pairs[k + 2]
-                rw.replace(k, k + 3, "Polynomial::from_slice(&[", "R18-polynomial-macro")
+                rw.replace(k, k + 3, getattr(cfg, "polynomial_macro_type", "Polynomial") + "::from_slice(&[", "R18-polynomial-macro")
                 rw.replace(close, close + 1, "])", "R18-polynomial-macro")
     extra = getattr(cfg, "extra", None)
     if not extra:
